@@ -207,6 +207,7 @@ type Obj struct {
 	Obs  func() core.Ev              // Size(), first/last key: taken after every call
 	Proj func() core.Ev              // full enumeration
 	N    int                         // pool size
+	Raw  interface{}                 // the real collection itself (C10: Size() as an operation, the lock field)
 }
 
 // Has reports whether the type offers the operation.
